@@ -625,8 +625,8 @@ def run(ctx):
     for i, c in enumerate(cbs):
         st = fl.state_at(c)
         local_names = set(st.defs)
-        frame = fl.expand(ast.Name(id=frame_var, ctx=ast.Load()), st)
-        own = fl.expand(ast.parse("self.mac_address", mode="eval").body, st)
+        frame = fold_consts(P, raw.module, fl.expand(ast.Name(id=frame_var, ctx=ast.Load()), st), local_names)
+        own = fold_consts(P, raw.module, fl.expand(ast.parse("self.mac_address", mode="eval").body, st), local_names)
 
         def field(lo, hi):
             return ast.Subscript(value=copy.deepcopy(frame), slice=ast.Slice(lower=ast.Constant(lo), upper=ast.Constant(hi)),
